@@ -397,7 +397,7 @@ def parses_and_roundtrips(src):
 
 
 def documents(prop, tier):
-    n, maxchars = (40, 60) if tier == 'quick' else (400, 90)
+    n, maxchars = (40, 60) if tier == 'quick' else (300, 90)
     docs = list(HAND_DOCS)
     for s, _ in inputs.grammar_docs(prop, n, 2, salt='edit', maxchars=maxchars):
         if s not in docs and inputs.env_in_arg_depth(s) <= 3 and parses_and_roundtrips(s):
@@ -418,7 +418,7 @@ def run(prop, tier):
         two = [(d, 2, 1, 1) for d in HAND_DOCS[:2] + HAND_DOCS[7:8]]
     else:
         two = [(d, 2, 2, 1) for d in HAND_DOCS[:6]]
-        two += [(d, 2, 1, 1) for d in list(dict.fromkeys(HAND_DOCS[6:] + tiny[:16]))]
+        two += [(d, 2, 1, 1) for d in list(dict.fromkeys(HAND_DOCS[6:] + tiny[:12]))]
     gen += [('exh', [t]) for t in two]
     # 3. thorough: length 3 exhaustively on tiny documents
     three = [] if quick else [r'\a{x}\a{x}', r'\begin{e}{\b}\b\end{e}', r'\item a\item a', r'{g}$m$']
@@ -428,7 +428,7 @@ def run(prop, tier):
         cases.extend(part)
     n_exh = len(cases)
     # 4. random histories (generated in parallel, one random stream per chunk)
-    nrand, maxlen = (160, 12) if quick else (4000, 40)
+    nrand, maxlen = (160, 12) if quick else (3200, 40)
     nchunks = NPROC * 2
     per = nrand // nchunks
     nrand = per * nchunks
